@@ -411,6 +411,69 @@ def run_history(case, ctx):
             check_json_stream(fp2.getvalue(), all_specs, True, "json/re-export")
 
 
+def many_descriptor_cases(tier):
+    return [{"n": n, "kind": k, "same_name": sn} for n in (300, 600, 1100, 2100) for k in ("binary", "json") for sn in (False, True)
+            if not (k == "json" and n > 1100)]
+
+
+def check_many_descriptors(case, ctx):
+    """A long-running stream with many record types: a type announced once stays known however many other types
+    follow, so a later record of an early type is read back like the first."""
+    import datetime as _d
+
+    from flow.record import RecordDescriptor, RecordStreamReader, RecordStreamWriter
+    from flow.record.adapter.jsonfile import JsonfileReader, JsonfileWriter
+
+    n, kind = case["n"], case["kind"]
+    g = _d.datetime(2020, 1, 1, tzinfo=_d.timezone.utc)
+    ctx.nontriv()
+    ctx.cls("descriptors:%d" % n, "kind:" + kind, "same-name:%s" % case["same_name"])
+    descs = []
+    for i in range(n):
+        name = "many/t" if case["same_name"] else "many/t%d" % i
+        descs.append(RecordDescriptor(name, [("string", "s"), ("varint", "f%d" % i)]))
+    order = list(range(n)) + [0, 1, n // 2, n - 1, 0]
+    recs = [descs[i]("v%d" % k, k, _generated=g) for k, i in enumerate(order)]
+    want = [(r._desc.name, tuple(r._desc.get_field_tuples()), int(getattr(r, r._desc.get_field_tuples()[1][1]))) for r in recs]
+    if kind == "binary":
+        fp = KeepBytes()
+        w = RecordStreamWriter(fp)
+    else:
+        fp = KeepText()
+        w = JsonfileWriter(fp)
+    for r in recs:
+        res = impl(w.write, r)
+        if not res.ok:
+            raise Violation("%s/many-descriptors/write-raised" % kind, "%r" % (res,), detail=res.type)
+    impl(w.flush)
+    if kind == "binary":
+        data = fp.getvalue()
+        got = impl(lambda: list(RecordStreamReader(io.BytesIO(data))))
+    else:
+        d = ctx.fresh_dir()
+        jp = os.path.join(d, "m.json")
+        with open(jp, "w") as f:
+            f.write(fp.getvalue())
+
+        def _rd():
+            rd = JsonfileReader(jp)
+            try:
+                return list(rd)
+            finally:
+                rd.close()
+
+        got = impl(_rd)
+        shutil.rmtree(d, ignore_errors=True)
+    if not got.ok:
+        raise Violation("%s/many-descriptors/read-raised" % kind, "stream with %d record types: reader raised %r" % (n, got),
+                        detail=got.type)
+    have = [(r._desc.name, tuple(r._desc.get_field_tuples()), int(getattr(r, r._desc.get_field_tuples()[1][1]))) for r in got.value]
+    if have != want:
+        k = next((k for k, (a, b) in enumerate(zip(have, want)) if a != b), min(len(have), len(want)))
+        raise Violation("%s/many-descriptors/records-differ" % kind, "stream with %d record types: %d records read, %d written; "
+                        "first difference at #%d" % (n, len(have), len(want), k))
+
+
 # ---------------------------------------------------------------------------------------------
 # random histories
 
@@ -476,5 +539,6 @@ def random_case(draw):
 def parts(tier):
     return [
         Part("histories-exhaustive", run_history, cases=exhaustive_cases, exhaustive=True),
+        Part("many-descriptors", check_many_descriptors, cases=many_descriptor_cases, exhaustive=True),
         Part("histories-random", run_history, strategy=random_case(), examples=(60, 1200)),
     ]
